@@ -159,97 +159,99 @@ def run(ctx):
     zones = [1, 30, 31, 55, 60]
     lats = [-79.0, -60.0, -33.0, -5.0, 0.5, 20.0, 45.0, 70.0, 83.0]
     lengths = [1.0, 10.0, 100.0, 1000.0, 10000.0, 100000.0]
-    n = 0
-    for zone in zones:
-        cm = zone * 6 - 183
-        for lat in lats:
-            for east in (100000.0, 300000.0, 500000.0, 700000.0, 900000.0):
-                n += 1
-                if quick and n % 3:
-                    continue
-                ell = d.fresh(ells[d.pick() % 6])
-                E = ell[1]
-                hemi = "south" if lat < 0 else "north"
-                n1 = cv.geo2grid(lat + rnd.uniform(-0.4, 0.4), float(cm), zone, E)[3]
-                e1 = round(east + rnd.uniform(-500, 500), 4)
-                la1, lo1 = cv.grid2geo(zone, e1, n1, hemi, E)[:2]
-                if not (-180 <= lo1 <= 180):
-                    continue
-                L = lengths[n % 6] * rnd.uniform(0.3, 1.0) if lengths[n % 6] > 1 else 1.0
-                brg = (n * 30.0 + rnd.uniform(0, 29)) % 360.0
-                e2 = round(e1 + L * math.sin(math.radians(brg)), 4)
-                n2 = round(n1 + L * math.cos(math.radians(brg)), 4)
-                if not (0 <= n2 <= 10000000):
-                    continue
-                la2, lo2 = cv.grid2geo(zone, e2, n2, hemi, E)[:2]
-                if not (-80 <= la2 <= 84 and -180 <= lo2 <= 180) or (la2 < 0) != (la1 < 0):
-                    continue
-                tag = "zone%d lat%g L%g" % (zone, lat, lengths[n % 6])
-                # second point in the same zone, and (where it exists) given in the adjacent zone
-                for z2 in (zone, zone + 1 if east > 500000 else zone - 1):
-                    if z2 < 1 or z2 > 60:
-                        continue
-                    if z2 == zone:
-                        q2 = (zone, e2, n2)
-                    else:
-                        g = cv.geo2grid(la2, lo2, z2, E)
-                        q2 = (z2, g[2], g[3])
-                    inv = d.inv_event(zone, e1, n1, q2[0], q2[1], q2[2], hemi, ell, tag + (" adjacent" if z2 != zone else ""))
-                    evs.append(inv)
-                    if not inv["exc"]:
-                        evs.append(d.dir_event(zone, e1, n1, hemi, ell, inv, tag + (" adjacent" if z2 != zone else "")))
-    # lines that straddle the central meridian (one easting below, one above the false easting)
-    k = 0
-    for zone in zones:
-        cm = zone * 6 - 183
-        for lat in (-60.0, -20.0, 35.0, 75.0):
-            for (d1, d2) in ((30000.0, 45000.0), (5000.0, 2000.0), (300.0, 80000.0), (49000.0, 49000.0)):
-                k += 1
-                if quick and k % 2:
-                    continue
-                ell = d.fresh(ells[d.pick() % 6])
-                E = ell[1]
-                hemi = "south" if lat < 0 else "north"
-                n1 = cv.geo2grid(lat, float(cm), zone, E)[3]
-                e1, e2 = 500000.0 - d1, 500000.0 + d2
-                n2 = round(n1 + rnd.uniform(-20000, 20000), 4)
-                if not (0 <= n2 <= 10000000):
-                    continue
-                inv = d.inv_event(zone, e1, round(n1, 4), zone, e2, n2, hemi, ell, "straddles CM zone%d lat%g" % (zone, lat))
-                evs.append(inv)
-                if not inv["exc"]:
-                    evs.append(d.dir_event(zone, e1, round(n1, 4), hemi, ell, inv, "straddles CM"))
-    # lines running within the grid convergence of grid north / south: there azimuth + convergence leaves 0..360 at one end
-    # (plane bearing = +-half the convergence, and the same turned by 180 degrees), on both sides of the central meridian
-    k = 0
-    for zone in (1, 31, 60):
-        cm = zone * 6 - 183
-        for lat in (-70.0, -25.0, 10.0, 60.0):
-            for east in (200000.0, 820000.0):
-                hemi = "south" if lat < 0 else "north"
-                for turn in (0.0, 180.0):
-                    for half in (0.5, -0.5):
-                        ell = d.fresh(ells[d.pick() % 6])
-                        E = ell[1]
-                        n1 = round(cv.geo2grid(lat + rnd.uniform(-0.4, 0.4), float(cm), zone, E)[3], 4)
-                        e1 = round(east + rnd.uniform(-500, 500), 4)
-                        la1, lo1, _psf, conv = [float(x) for x in cv.grid2geo(zone, e1, n1, hemi, E)[:4]]
-                        if not (-179.9 <= lo1 <= 179.9):
-                            continue               # zone 1 / 60 reach beyond the +-180 meridian at this easting: not a position
-                        brg = (turn + half * conv) % 360.0
-                        L = rnd.uniform(800.0, 20000.0)
-                        e2 = round(e1 + L * math.sin(math.radians(brg)), 4)
-                        n2 = round(n1 + L * math.cos(math.radians(brg)), 4)
-                        if not (0 <= n2 <= 10000000):
-                            continue
-                        la2, lo2 = [float(x) for x in cv.grid2geo(zone, e2, n2, hemi, E)[:2]]
-                        if not (-80 <= la2 <= 84 and -179.9 <= lo2 <= 179.9) or (la2 < 0) != (la1 < 0):
-                            continue
-                        tag = "within the convergence of grid %s zone%d lat%g" % ("north" if turn == 0 else "south", zone, lat)
-                        inv = d.inv_event(zone, e1, n1, zone, e2, n2, hemi, ell, tag)
-                        evs.append(inv)
-                        if not inv["exc"]:
-                            evs.append(d.dir_event(zone, e1, n1, hemi, ell, inv, tag))
+    # thorough: the sampled families are drawn forty times over (other offsets, lengths and bearings each time)
+    for rep in range(1 if quick else 40):
+      n = rep * 7
+      for zone in zones:
+          cm = zone * 6 - 183
+          for lat in lats:
+              for east in (100000.0, 300000.0, 500000.0, 700000.0, 900000.0):
+                  n += 1
+                  if quick and n % 3:
+                      continue
+                  ell = d.fresh(ells[d.pick() % 6])
+                  E = ell[1]
+                  hemi = "south" if lat < 0 else "north"
+                  n1 = cv.geo2grid(lat + rnd.uniform(-0.4, 0.4), float(cm), zone, E)[3]
+                  e1 = round(east + rnd.uniform(-500, 500), 4)
+                  la1, lo1 = cv.grid2geo(zone, e1, n1, hemi, E)[:2]
+                  if not (-180 <= lo1 <= 180):
+                      continue
+                  L = lengths[n % 6] * rnd.uniform(0.3, 1.0) if lengths[n % 6] > 1 else 1.0
+                  brg = (n * 30.0 + rnd.uniform(0, 29)) % 360.0
+                  e2 = round(e1 + L * math.sin(math.radians(brg)), 4)
+                  n2 = round(n1 + L * math.cos(math.radians(brg)), 4)
+                  if not (0 <= n2 <= 10000000):
+                      continue
+                  la2, lo2 = cv.grid2geo(zone, e2, n2, hemi, E)[:2]
+                  if not (-80 <= la2 <= 84 and -180 <= lo2 <= 180) or (la2 < 0) != (la1 < 0):
+                      continue
+                  tag = "zone%d lat%g L%g" % (zone, lat, lengths[n % 6])
+                  # second point in the same zone, and (where it exists) given in the adjacent zone
+                  for z2 in (zone, zone + 1 if east > 500000 else zone - 1):
+                      if z2 < 1 or z2 > 60:
+                          continue
+                      if z2 == zone:
+                          q2 = (zone, e2, n2)
+                      else:
+                          g = cv.geo2grid(la2, lo2, z2, E)
+                          q2 = (z2, g[2], g[3])
+                      inv = d.inv_event(zone, e1, n1, q2[0], q2[1], q2[2], hemi, ell, tag + (" adjacent" if z2 != zone else ""))
+                      evs.append(inv)
+                      if not inv["exc"]:
+                          evs.append(d.dir_event(zone, e1, n1, hemi, ell, inv, tag + (" adjacent" if z2 != zone else "")))
+      # lines that straddle the central meridian (one easting below, one above the false easting)
+      k = rep * 5
+      for zone in zones:
+          cm = zone * 6 - 183
+          for lat in (-60.0, -20.0, 35.0, 75.0):
+              for (d1, d2) in ((30000.0, 45000.0), (5000.0, 2000.0), (300.0, 80000.0), (49000.0, 49000.0)):
+                  k += 1
+                  if quick and k % 2:
+                      continue
+                  ell = d.fresh(ells[d.pick() % 6])
+                  E = ell[1]
+                  hemi = "south" if lat < 0 else "north"
+                  n1 = cv.geo2grid(lat, float(cm), zone, E)[3]
+                  e1, e2 = 500000.0 - d1, 500000.0 + d2
+                  n2 = round(n1 + rnd.uniform(-20000, 20000), 4)
+                  if not (0 <= n2 <= 10000000):
+                      continue
+                  inv = d.inv_event(zone, e1, round(n1, 4), zone, e2, n2, hemi, ell, "straddles CM zone%d lat%g" % (zone, lat))
+                  evs.append(inv)
+                  if not inv["exc"]:
+                      evs.append(d.dir_event(zone, e1, round(n1, 4), hemi, ell, inv, "straddles CM"))
+      # lines running within the grid convergence of grid north / south: there azimuth + convergence leaves 0..360 at one end
+      # (plane bearing = +-half the convergence, and the same turned by 180 degrees), on both sides of the central meridian
+      k = rep * 5
+      for zone in (1, 31, 60):
+          cm = zone * 6 - 183
+          for lat in (-70.0, -25.0, 10.0, 60.0):
+              for east in (200000.0, 820000.0):
+                  hemi = "south" if lat < 0 else "north"
+                  for turn in (0.0, 180.0):
+                      for half in (0.5, -0.5):
+                          ell = d.fresh(ells[d.pick() % 6])
+                          E = ell[1]
+                          n1 = round(cv.geo2grid(lat + rnd.uniform(-0.4, 0.4), float(cm), zone, E)[3], 4)
+                          e1 = round(east + rnd.uniform(-500, 500), 4)
+                          la1, lo1, _psf, conv = [float(x) for x in cv.grid2geo(zone, e1, n1, hemi, E)[:4]]
+                          if not (-179.9 <= lo1 <= 179.9):
+                              continue               # zone 1 / 60 reach beyond the +-180 meridian at this easting: not a position
+                          brg = (turn + half * conv) % 360.0
+                          L = rnd.uniform(800.0, 20000.0)
+                          e2 = round(e1 + L * math.sin(math.radians(brg)), 4)
+                          n2 = round(n1 + L * math.cos(math.radians(brg)), 4)
+                          if not (0 <= n2 <= 10000000):
+                              continue
+                          la2, lo2 = [float(x) for x in cv.grid2geo(zone, e2, n2, hemi, E)[:2]]
+                          if not (-80 <= la2 <= 84 and -179.9 <= lo2 <= 179.9) or (la2 < 0) != (la1 < 0):
+                              continue
+                          tag = "within the convergence of grid %s zone%d lat%g" % ("north" if turn == 0 else "south", zone, lat)
+                          inv = d.inv_event(zone, e1, n1, zone, e2, n2, hemi, ell, tag)
+                          evs.append(inv)
+                          if not inv["exc"]:
+                              evs.append(d.dir_event(zone, e1, n1, hemi, ell, inv, tag))
     tris = [(3, 4, 5), (5, 12, 13), (12, 5, 13), (8, 15, 17), (7, 24, 25), (20, 21, 29), (9, 40, 41), (40, 9, 41), (4, 3, 5), (15, 8, 17)]
     tris = [t for t in tris if math.degrees(math.atan2(t[0], t[1])) <= 83]
     for i, t1 in enumerate(tris):
